@@ -29,7 +29,8 @@ def gen_case(rng, cid):
     c["dscoords"] = dscoords
     c["args"]["keep_coords"] = rng.random() < 0.5
     c["args"]["input_coords"] = rng.choice(["dataset", "dataset", "none", "foreign"])
-    c["args"]["name"] = rng.choice(["v1", "v1", "none"])
+    # the input's name: a word, none at all, or a legal but "falsy" one (the empty string, the integer 0 - written "0")
+    c["args"]["name"] = rng.choice(["v1", "v1", "v1", "none", "", "0"])
     c["args"]["weighted"] = rng.random() < 0.2 and len(c["args"]["axis"]) == 1
     return c
 
@@ -64,7 +65,7 @@ def execute(case):
             extra["metrics"] = {(a["axis"][0],): [f"m_{p}" for p, _ in ax["pos"]]}
         grid, _ = model.make_grid(g, ds=ds, **extra)
         data = np.array(a["data"]["flat"], dtype=float).reshape(a["data"]["shape"])
-        da = xr.DataArray(data, dims=a["data"]["dims"], name=None if a["name"] == "none" else a["name"])
+        da = xr.DataArray(data, dims=a["data"]["dims"], name=None if a["name"] == "none" else (0 if a["name"] == "0" else a["name"]))
         if a["input_coords"] == "dataset":
             da = da.assign_coords({n: c for n, c in ds.coords.items() if set(c.dims) <= set(da.dims)})
         elif a["input_coords"] == "foreign":
